@@ -555,42 +555,41 @@ pub(crate) static mut INJ: Option<dict::ChunkDictionary> = None;
 pub(crate) fn injected_dictionary() -> dict::ChunkDictionary {
     unsafe { INJ.take().expect("harness did not inject a dictionary") }
 }
-/// reader for try_init: first read = pre-header (magic + dictionary size 4), second = 4 + 8 + 64 bytes of which the
-/// 8 bytes after the "dictionary" are the chunk data offset
-struct HeaderReader {
-    reads: usize,
-    cdo: [u8; 8],
-    asked_off: [u64; 2],
-    asked_size: [usize; 2],
-}
-static PRE: [u8; 14] = [b'B', b'I', b'T', b'A', b'1', 0, 4, 0, 0, 0, 0, 0, 0, 0];
+/// reader for try_init: first read = pre-header (magic + dictionary size), second = 4 + 8 + 64 bytes of which the
+/// 8 bytes after the "dictionary" are the chunk data offset.  What was asked for is recorded in plain statics
+/// (records kept in fields of the reader, which lives inside try_init's coroutine, were silently lost by CBMC).
+struct HeaderReader;
+static mut PRE: [u8; 14] = [b'B', b'I', b'T', b'A', b'1', 0, 4, 0, 0, 0, 0, 0, 0, 0];
 static mut REST: [u8; 76] = [0; 76];
+static mut HR_READS: usize = 0;
+static mut HR_OFF0: u64 = 0;
+static mut HR_SIZE0: usize = 0;
+static mut HR_OFF1: u64 = 0;
+static mut HR_SIZE1: usize = 0;
+/// false: the second read fails (harnesses that only look at the pre-header arithmetic)
+static mut HR_SECOND_OK: bool = true;
 #[async_trait]
 impl ArchiveReader for HeaderReader {
     type Error = ();
     async fn read_at<'a>(&'a mut self, offset: u64, size: usize) -> Result<Bytes, ()> {
-        let k = self.reads;
-        self.reads += 1;
-        if k < 2 {
-            self.asked_off[k] = offset;
-            self.asked_size[k] = size;
-        }
-        if k == 0 {
-            Ok(Bytes::from_static(&PRE[..]))
-        } else if k == 1 {
-            unsafe {
-                REST[4] = self.cdo[0];
-                REST[5] = self.cdo[1];
-                REST[6] = self.cdo[2];
-                REST[7] = self.cdo[3];
-                REST[8] = self.cdo[4];
-                REST[9] = self.cdo[5];
-                REST[10] = self.cdo[6];
-                REST[11] = self.cdo[7];
-                Ok(Bytes::from_static(&REST[..]))
+        unsafe {
+            let k = HR_READS;
+            HR_READS += 1;
+            if k == 0 {
+                HR_OFF0 = offset;
+                HR_SIZE0 = size;
+                Ok(Bytes::from_static(&PRE[..]))
+            } else if k == 1 {
+                HR_OFF1 = offset;
+                HR_SIZE1 = size;
+                if HR_SECOND_OK {
+                    Ok(Bytes::from_static(&REST[..]))
+                } else {
+                    Err(())
+                }
+            } else {
+                Err(())
             }
-        } else {
-            Err(())
         }
     }
     fn read_chunks<'a>(&'a mut self, _chunks: Vec<ChunkOffset>) -> Pin<Box<dyn Stream<Item = Result<Bytes, ()>> + Send + 'a>> {
@@ -640,7 +639,18 @@ fn try_init_post_decode(assume_no_overflow: bool) {
     unsafe {
         INJ = Some(d);
     }
-    let rd = HeaderReader { reads: 0, cdo: cdo.to_le_bytes(), asked_off: [0; 2], asked_size: [0; 2] };
+    let cb = cdo.to_le_bytes();
+    unsafe {
+        REST[4] = cb[0];
+        REST[5] = cb[1];
+        REST[6] = cb[2];
+        REST[7] = cb[3];
+        REST[8] = cb[4];
+        REST[9] = cb[5];
+        REST[10] = cb[6];
+        REST[11] = cb[7];
+    }
+    let rd = HeaderReader;
     let mut cx = noop_cx();
     let r = {
         let fut = Archive::try_init(rd);
@@ -653,9 +663,11 @@ fn try_init_post_decode(assume_no_overflow: bool) {
     match r {
         Ok(ar) => {
             // only the header region was read: pre-header, then dictionary + offset + checksum
-            assert!(ar.reader.reads == 2);
-            assert!(ar.reader.asked_off[0] == 0 && ar.reader.asked_size[0] == 14);
-            assert!(ar.reader.asked_off[1] == 14 && ar.reader.asked_size[1] == 4 + 8 + 64);
+            unsafe {
+                assert!(HR_READS == 2);
+                assert!(HR_OFF0 == 0 && HR_SIZE0 == 14);
+                assert!(HR_OFF1 == 14 && HR_SIZE1 == 4 + 8 + 64);
+            }
             assert!(ar.header_size() == 14 + 4 + 8 + 64);
             assert!(ar.chunk_data_offset() == cdo);
             // descriptors: same order as in the dictionary, sizes and checksums verbatim, absolute offset =
@@ -664,6 +676,10 @@ fn try_init_post_decode(assume_no_overflow: bool) {
             assert!(cds.len() == 2);
             assert!(cds[0].archive_offset == cdo + rel[0] && cds[1].archive_offset == cdo + rel[1]);
             assert!(cds[0].archive_size == asz[0] as usize && cds[1].archive_size == asz[1] as usize);
+            // the end of every accepted stored chunk is expressible (bita's own accessor must not overflow; the
+            // readers compute offset + size the same way)
+            let _ = cds[0].archive_end_offset();
+            let _ = cds[1].archive_end_offset();
             assert!(cds[0].source_size == ssz[0] && cds[1].source_size == ssz[1]);
             assert!(cds[0].checksum.slice()[0] == 0x11 && cds[0].checksum.len() == 2 && cds[1].checksum.slice()[1] == 0x22);
             // rebuild order verbatim and valid
@@ -677,8 +693,13 @@ fn try_init_post_decode(assume_no_overflow: bool) {
             std::mem::forget(ar);
         }
         Err(e) => {
-            // with these parameters only an out-of-range rebuild index is a reason to refuse
-            assert!(order[0] >= 2 || order[1] >= 2);
+            // with these parameters only an out-of-range rebuild index or a chunk range beyond u64::MAX is a reason
+            // to refuse
+            let range_ok = |i: usize| match cdo.checked_add(rel[i]) {
+                Some(o) => o.checked_add(asz[i] as u64).is_some(),
+                None => false,
+            };
+            assert!(order[0] >= 2 || order[1] >= 2 || !range_ok(0) || !range_ok(1));
             kani::cover!(true);
             std::mem::forget(e);
         }
@@ -694,4 +715,49 @@ fn c17_try_init_post_decode() {
 #[kani::unwind(132)]
 fn c15_try_init_offsets_any() {
     try_init_post_decode(false);
+}
+
+/// C15: the dictionary size of the pre-header is attacker-controlled and is used before any checksum can be
+/// verified: for EVERY 8-byte size field, try_init must not panic on the way to its second read, and that read asks
+/// for exactly dictionary + chunk-data-offset + checksum bytes.  (The second read fails here, which ends try_init.)
+#[kani::proof]
+#[kani::unwind(16)]
+fn c15_try_init_dictionary_size_any() {
+    let sz: [u8; 8] = kani::any();
+    unsafe {
+        PRE[6] = sz[0];
+        PRE[7] = sz[1];
+        PRE[8] = sz[2];
+        PRE[9] = sz[3];
+        PRE[10] = sz[4];
+        PRE[11] = sz[5];
+        PRE[12] = sz[6];
+        PRE[13] = sz[7];
+        HR_SECOND_OK = false;
+    }
+    let mut cx = noop_cx();
+    let r = {
+        let fut = Archive::try_init(HeaderReader);
+        tokio::pin!(fut);
+        match fut.as_mut().poll(&mut cx) {
+            Poll::Ready(r) => r,
+            Poll::Pending => panic!("pending on a ready reader"),
+        }
+    };
+    let d = u64::from_le_bytes(sz);
+    match r {
+        Ok(ar) => {
+            assert!(false, "the second read failed");
+            std::mem::forget(ar);
+        }
+        Err(e) => {
+            unsafe {
+                // either refused before the second read, or the second read asked for exactly the declared region
+                assert!(HR_READS == 1 || (HR_READS == 2 && HR_OFF1 == 14 && HR_SIZE1 as u64 == d + 72));
+                kani::cover!(HR_READS == 2);
+                kani::cover!(HR_READS == 1);
+            }
+            std::mem::forget(e);
+        }
+    }
 }
